@@ -413,3 +413,41 @@ func ZZC02Index() {
 	zzAssert((err == nil) == ok, "C02 index: index/slice programs succeed exactly for integral positions inside the rune length")
 	zzWitness("end")
 }
+
+// ZZC02Assert: a type assertion on an any succeeds exactly when the asserted
+// type is identical to the concrete type the value carries (typeof) — also
+// for empty arrays and maps, whose concrete type is the one they were created
+// with — and is the documented panic otherwise; the result then has the
+// asserted type and shares the container.
+func ZZC02Assert() {
+	vals := []struct{ setup, expr, typ string }{
+		{"", "1", "num"}, {"", "\"s\"", "string"}, {"", "true", "bool"},
+		{"", "[1]", "[]num"}, {"", "[\"s\"]", "[]string"}, {"", "[1 \"s\"]", "[]any"}, {"", "[]", "[]any"}, {"", "{}", "{}any"},
+		{"", "{a:1}", "{}num"}, {"", "[[1]]", "[][]num"}, {"", "[[]]", "[][]any"},
+		{"en:[]num\n", "en", "[]num"}, {"es:[]string\n", "es", "[]string"}, {"em:{}num\n", "em", "{}num"}, {"ea:{}any\n", "ea", "{}any"},
+		{"m := {}\n", "m", "{}any"}, {"ee:[][]num\n", "ee", "[][]num"},
+	}
+	targets := []string{"num", "string", "bool", "[]num", "[]string", "[]any", "{}num", "{}any", "{}string", "[][]num", "[][]any"}
+	v := vals[zzChoice("val", len(vals))]
+	t := targets[zzChoice("target", len(targets))]
+	src := v.setup + "x:any\nx = " + v.expr + "\nprint (typeof x)\ny := x.(" + t + ")\nprint (typeof y) (y == y)\n"
+	p := &zzPlat{}
+	ev := NewEvaluator(p)
+	err := ev.Run(src)
+	first := ""
+	if len(p.trace) > 0 {
+		first = p.trace[0]
+	}
+	zzAssert(first == "print:"+v.typ+"\n", "C02 assert: an any carries the concrete type of the value stored in it")
+	if t == v.typ {
+		zzReach("assert-ok")
+		zzAssert(err == nil && len(p.trace) == 2 && p.trace[1] == "print:"+t+" true\n", "C02 assert: asserting the concrete type succeeds and gives a value of that type")
+	} else {
+		zzReach("assert-panics")
+		if err == nil {
+			zzLog("C02 assert accepted: " + src)
+		}
+		zzAssert(err != nil && zzAcceptableErr(err) && len(p.trace) == 1, "C02 assert: asserting any other type is the documented run-time panic")
+	}
+	zzWitness("end")
+}
